@@ -90,6 +90,13 @@ def c06_worker(res: Result, i: int, n: int) -> None:
                     g._lean -= 1  # noqa: SLF001
                 trees.append(t)
                 res.count("instances_with_a_long_array")
+            blob_fields = [fs for fs in spec.fields if fs.kind == "prim" and fs.ktype in ("bytes", "records") and not fs.array]
+            if blob_fields and rng.random() < (0.06 if res.tier == "quick" else 0.5):
+                # one payload beyond what "large message" thresholds usually are (a fetch response easily carries tens of MiB)
+                t = g.struct(spec)
+                t[rng.choice(blob_fields).name] = rng.randbytes(97) * ((rng.choice((5, 6, 17)) << 20) // 97 + 1)
+                trees.append(t)
+                res.count("instances_with_a_payload_of_5_to_17_MiB")
             if res.tier == "thorough":
                 trees += [g.struct(spec) for _ in range(per_class - len(trees))]
             reader = entity_reader(cls)
@@ -473,13 +480,37 @@ def best(fn, reps):
 from kio.schema.api_versions.v3.request import ApiVersionsRequest
 from kio.schema.offset_fetch.v7.request import OffsetFetchRequestTopic
 from kio.schema.metadata.v9.request import MetadataRequest
+from kio.schema.offset_fetch.v1.request import OffsetFetchRequestTopic as LegacyTopic
+from kio.schema.metadata.v1.request import MetadataRequest as LegacyMetadata
 import gc
 
 def counted(n):
     tags = b"".join(refcodec.uvarint(200 + k) + b"\\x00" for k in range(n))
     return {{"unknown tagged fields": (ApiVersionsRequest, b"\\x02a\\x02b" + refcodec.uvarint(n) + tags),
             "int32 array items": (OffsetFetchRequestTopic, b"\\x02t" + refcodec.uvarint(n + 1) + bytes(4 * n) + b"\\x00"),
-            "struct array items": (MetadataRequest, refcodec.uvarint(n + 1) + b"\\x02t\\x00" * n + b"\\x00\\x00\\x00\\x00")}}
+            "struct array items": (MetadataRequest, refcodec.uvarint(n + 1) + b"\\x02t\\x00" * n + b"\\x00\\x00\\x00\\x00"),
+            "legacy int32 array items": (LegacyTopic, b"\\x00\\x01t" + n.to_bytes(4, "big") + bytes(4 * n)),
+            "legacy struct array items": (LegacyMetadata, n.to_bytes(4, "big") + b"\\x00\\x01t" * n)}}
+
+# a length prefix that claims millions of items with no data behind it: nothing may be set aside for them (tracemalloc peak, deterministic)
+import tracemalloc
+claimed = {{}}
+for name, (cls, data) in {{"compact array claiming 2^24 items": (MetadataRequest, refcodec.uvarint(2**24 + 1)),
+                          "legacy array claiming 2^24 items": (LegacyMetadata, (2**24).to_bytes(4, "big")),
+                          "legacy array claiming 2^31-1 items": (LegacyMetadata, (2**31 - 1).to_bytes(4, "big")),
+                          "compact bytes claiming 2^30 bytes": (Flexible, refcodec.uvarint(2**30 + 1))}}.items():
+    reader = entity_reader(cls)
+    tracemalloc.start()
+    try:
+        reader(io.BytesIO(data + b"\\x00" * 8))
+        outcome = "returned"
+    except MemoryError:
+        outcome = "MemoryError"
+    except Exception as exc:
+        outcome = type(exc).__name__
+    peak = tracemalloc.get_traced_memory()[1]
+    tracemalloc.stop()
+    claimed[name] = [peak, outcome]
 
 count_res = {{}}
 gc.disable()
@@ -502,7 +533,7 @@ for name in encodings(1):
         copy = best(lambda: data[8:], 7)  # one allocation + one copy of (nearly) the same size, in the same allocator / cache regime
         row.append([decode, copy])
     res[name] = row
-print(json.dumps({{"sized": res, "counted": count_res}}))
+print(json.dumps({{"sized": res, "counted": count_res, "claimed": claimed}}))
 """
 
 
@@ -521,6 +552,7 @@ def scaling_probe(res: Result) -> None:
     csmall, cbig = 4000, 32000
     rounds: list[dict] = []
     crounds: list[dict] = []
+    claimed: dict = {}
 
     def growth(row: list) -> float:
         (ds, cs), (db, cb) = row
@@ -533,6 +565,7 @@ def scaling_probe(res: Result) -> None:
             doc = json.loads(p.stdout.strip().splitlines()[-1])
             rounds.append(doc["sized"])
             crounds.append(doc["counted"])
+            claimed = doc["claimed"]
         except Exception as exc:  # noqa: BLE001
             res.inconclusive_because(f"scaling probe did not report: {exc!r}")
             return
@@ -541,6 +574,11 @@ def scaling_probe(res: Result) -> None:
     res.count("scaling_probe_rounds", len(rounds))
     growths = {name: [round(growth(r[name]), 2) for r in rounds] for name in rounds[0]}
     res.coverage["scaling_probe"] = {"sizes": [small, big], "growth_of_decode_time_over_copy_time_by_round": growths, "cpu_ns_decode_and_copy_last_round": rounds[-1]}
+    res.coverage["scaling_probe"]["claimed_lengths_peak_bytes_and_outcome"] = claimed
+    for name, (peak, outcome) in claimed.items():
+        if peak > (4 << 20) or outcome == "MemoryError":
+            res.violation(f"allocation-by-claimed-length:{name.split()[0]}", f"{name} (a dozen input bytes): the decoder set aside {peak} bytes before failing ({outcome}): "
+                          "memory (and the time to clear it) in proportion to a claimed length, not to the input", {"shape": name, "peak": peak, "outcome": outcome})
     cratios = {name: [round(r[name][1] / max(r[name][0], 1), 1) for r in crounds] for name in crounds[0]}
     res.coverage["scaling_probe"]["count_driven"] = {"items": [csmall, cbig], "cpu_time_ratio_by_round": cratios, "cpu_ns_last_round": crounds[-1]}
     for name, rs in cratios.items():
